@@ -79,10 +79,17 @@ impl Prop for P {
         let info = crate::c12::node_info(&f);
         // the crate's own Node accessors on these bytes: a manual walk from root() must enumerate the content
         // that the format specification reads from them (S), find_input must agree with transitions()
-        let x = match crate::wrap::node_walk(&f, &kvs, 2000) {
+        let mut x = match crate::wrap::node_walk(&f, &kvs, 2000) {
             Ok(()) => "ok".to_string(),
             Err(e) => e,
         };
+        // the file a writer HOLDS when the builder is done is this same file: writers lent by &mut (short-writing,
+        // interrupting, committing on flush, BufWriter seen through get_ref) right after finish()
+        if x == "ok" && (rows, cols) == (drows(), dcols()) && ops.iter().map(|o| o.key().len() + 1).sum::<usize>() <= 4096 {
+            if let Err(e) = crate::wrap::sink_routes(ty, &ops, &bytes) {
+                x = e;
+            }
+        }
         format!("S:v=3;ty={};c={};len={};nodes={};ck=ok\tM:bytes={}\tX:{}", ty, fmt_kvs(&kvs), kvs.len(), info.emitted, hex(&bytes), x)
     }
 }
